@@ -254,8 +254,21 @@ class Walker:
                         r = a.scale(b.c)
                     else:
                         C2, r = self.product(a, b, C2)
-                    self.need(C2, r - K(self.maxv), "unsigned multiplication wraps", n)
+                    if n.attr and "nsw" in n.attr:
+                        if not (self.nonneg(C2, a) and self.nonneg(C2, b)):
+                            raise Failure("signed multiplication of a possibly negative value")
+                        self.need(C2, r - K(self.maxv >> 1), "signed multiplication overflows (undefined behaviour)", n)
+                    else:
+                        self.need(C2, r - K(self.maxv), "unsigned multiplication wraps", n)
                     yield C2, r
+        elif op in ("sdiv", "srem"):
+            # signed division of values that the path shows to be non-negative is the unsigned one
+            for C1, a in self.value(n.args[0], C):
+                for C2, b in self.value(n.args[1], C1):
+                    if not (self.nonneg(C2, a) and self.nonneg(C2, b)):
+                        raise Failure("signed division of a possibly negative value")
+                    C3, q, r = self.divide(a, b, C2, n)
+                    yield C3, (q if op == "sdiv" else r)
         elif op in ("udiv", "lshr", "urem", "and"):
             by = n.args[1]
             two = by.is_const() and ((op in ("udiv", "urem") and by.cval() == 2) or (op in ("lshr", "and") and by.cval() == 1))
@@ -318,6 +331,19 @@ class Walker:
                         yes, no = [d, -d], None
                     elif pred == "ne":
                         yes, no = None, [d, -d]
+                    elif pred in ("sle", "slt", "sgt", "sge") and self.nonneg(C2, a) and self.nonneg(C2, b) and \
+                            entails_le0(C2, a - K(self.maxv >> 1)) and entails_le0(C2, b - K(self.maxv >> 1)):
+                        # both operands are non-negative signed values: the signed order is the unsigned one
+                        if pred == "sle":
+                            yes, no = [d], [K(1) - d]
+                        elif pred == "slt":
+                            yes, no = [d + K(1)], [-d]
+                        elif pred == "sge":
+                            yes, no = [-d], [d + K(1)]
+                        else:
+                            yes, no = [K(1) - d], [d]
+                    elif pred in ("uge", "ugt"):
+                        yes, no = ([-d], [d + K(1)]) if pred == "uge" else ([K(1) - d], [d])
                     else:
                         raise Failure("signed comparison %s" % pred)
                     if yes is None or no is None:
